@@ -1,7 +1,10 @@
 // Package portaudio is a pure-Go stand-in for github.com/gordonklaus/portaudio used only by the verification harness.
 package portaudio
 
-import "sync"
+import (
+	"sync"
+	"time"
+)
 
 type DeviceInfo struct{}
 type HostApiInfo struct {
@@ -15,13 +18,17 @@ type Stream struct {
 	wg      sync.WaitGroup
 	Samples []float32
 	mu      sync.Mutex
+	calls   int
 }
 
 var (
 	InitCalls, TerminateCalls, CloseCalls int
 	// Drain: when true a started stream consumes samples through the callback in a goroutine.
-	Drain   = true
-	Last    *Stream
+	Drain = true
+	Last  *Stream
+	// SlowEvery > 0: the consumer sleeps 300 microseconds after every SlowEvery-th callback, so that the emulator
+	// regularly finds the sample channels full
+	SlowEvery = 0
 )
 
 func Reset() { InitCalls, TerminateCalls, CloseCalls = 0, 0, 0; Last = nil }
@@ -56,6 +63,10 @@ func (s *Stream) Start() error {
 				default:
 				}
 				s.cb(buf)
+				s.calls++
+				if SlowEvery > 0 && s.calls%SlowEvery == 0 {
+					time.Sleep(300 * time.Microsecond)
+				}
 				s.mu.Lock()
 				s.Samples = append(s.Samples, buf...)
 				s.mu.Unlock()
@@ -77,4 +88,22 @@ func (s *Stream) Taken() []float32 {
 	s.mu.Lock()
 	defer s.mu.Unlock()
 	return append([]float32(nil), s.Samples...)
+}
+
+// Quiesce waits until the consumer goroutine has taken everything it can (the count of completed buffers no longer
+// changes) and returns the samples of the completed buffers.
+func (s *Stream) Quiesce() []float32 {
+	last, stable := -1, 0
+	for stable < 5 {
+		time.Sleep(2 * time.Millisecond)
+		s.mu.Lock()
+		n := len(s.Samples)
+		s.mu.Unlock()
+		if n == last {
+			stable++
+		} else {
+			last, stable = n, 0
+		}
+	}
+	return s.Taken()
 }
